@@ -22,7 +22,10 @@ type TNode struct {
 	Caps int      `json:"caps"` // non-terminal: bit0 checker, bit1 transformer; 4 = interpreter.Select(Sel); 5 = interpreter.Array()
 	Sel  int      `json:"sel,omitempty"`
 	Kids []*TNode `json:"kids,omitempty"`
-	id   int
+	// OwnWalk (kind 2 with children): the node is a user type that embeds the library's non-terminal
+	// node and brings its own Walk: it is a NonTerminalNode AND Walkable
+	OwnWalk bool `json:"ownWalk,omitempty"`
+	id      int
 }
 
 type C13Case struct {
@@ -77,6 +80,7 @@ func genTNode(t *rapid.T, depth int) *TNode {
 		return n
 	}
 	n := &TNode{Kind: 2, Caps: rapid.SampledFrom([]int{0, 1, 1, 2, 3, 4, 5}).Draw(t, "caps")}
+	n.OwnWalk = rapid.IntRange(0, 7).Draw(t, "ownWalk") == 0
 	nk := rapid.IntRange(0, 4).Draw(t, "nk")
 	for i := 0; i < nk; i++ {
 		n.Kids = append(n.Kids, genTNode(t, depth-1))
@@ -124,8 +128,9 @@ func genC13(t *rapid.T) interface{} {
 type env13 struct {
 	log       []string
 	built     map[int]parsley.Node
-	failCheck int // node id
-	pass      int // > 0: schemas returned by the checkers carry a mark (second StaticCheck of one tree)
+	inner     map[int]parsley.Node // OwnWalk nodes: the embedded library node (what interpreters are handed)
+	failCheck int                  // node id
+	pass      int                  // > 0: schemas returned by the checkers carry a mark (second StaticCheck of one tree)
 	failTrans int
 	failEval  int
 	problems  []string
@@ -138,7 +143,7 @@ type baseI struct {
 
 func (b baseI) Eval(userCtx interface{}, node parsley.NonTerminalNode) (interface{}, parsley.Error) {
 	b.e.log = append(b.e.log, fmt.Sprintf("eval %d", b.id))
-	if node != b.e.built[b.id] {
+	if node != b.e.built[b.id] && node != b.e.inner[b.id] {
 		b.e.problems = append(b.e.problems, fmt.Sprintf("the interpreter of node %d was handed a different node", b.id))
 	}
 	if b.e.failEval == b.id {
@@ -163,7 +168,7 @@ func (c checkI) StaticCheck(userCtx interface{}, node parsley.NonTerminalNode) (
 		cs = append(cs, fmt.Sprint(ch.Schema()))
 	}
 	c.e.log = append(c.e.log, fmt.Sprintf("check %d [%s]", c.id, strings.Join(cs, ",")))
-	if node != c.e.built[c.id] {
+	if node != c.e.built[c.id] && node != c.e.inner[c.id] {
 		c.e.problems = append(c.e.problems, fmt.Sprintf("the checker of node %d was handed a different node", c.id))
 	}
 	if c.e.failCheck == c.id {
@@ -176,7 +181,7 @@ type transI struct{ baseI }
 
 func (c transI) TransformNode(userCtx interface{}, node parsley.Node) (parsley.Node, parsley.Error) {
 	c.e.log = append(c.e.log, fmt.Sprintf("trans %d", c.id))
-	if node != c.e.built[c.id] {
+	if node != c.e.built[c.id] && node != c.e.inner[c.id] {
 		c.e.problems = append(c.e.problems, fmt.Sprintf("the transformer of node %d was handed a different node", c.id))
 	}
 	if c.e.failTrans == c.id {
@@ -233,6 +238,19 @@ func passMark(pass int) string {
 	return ""
 }
 
+// walkNT is a user-defined node that is both a NonTerminalNode (it embeds the library's) and
+// Walkable (its own Walk visits the children).
+type walkNT struct{ *ast.NonTerminalNode }
+
+func (w *walkNT) Walk(f func(n parsley.Node) bool) bool {
+	for _, k := range w.Children() {
+		if parsley.Walk(k, f) {
+			return true
+		}
+	}
+	return false
+}
+
 // number assigns pre-order ids.
 func numberT(n *TNode, next *int) {
 	n.id = *next
@@ -281,6 +299,10 @@ func buildT(n *TNode, e *env13, pos *int) parsley.Node {
 		}
 		if len(kids) == 0 {
 			out = ast.NewEmptyNonTerminalNode("NT", parsley.Pos(start), in)
+		} else if n.OwnWalk {
+			nt := ast.NewNonTerminalNode("NT", kids, in)
+			e.inner[n.id] = nt
+			out = &walkNT{nt}
 		} else {
 			out = ast.NewNonTerminalNode("NT", kids, in)
 		}
@@ -307,7 +329,7 @@ func treeDepth(n *TNode) int {
 }
 
 func (c *C13Case) fresh() (*env13, parsley.Node, []*TNode) {
-	e := &env13{built: map[int]parsley.Node{}, failCheck: -1, failTrans: -1, failEval: -1}
+	e := &env13{built: map[int]parsley.Node{}, inner: map[int]parsley.Node{}, failCheck: -1, failTrans: -1, failEval: -1}
 	next := 0
 	numberT(c.Root, &next)
 	pos := 1
@@ -606,7 +628,7 @@ func checkC13(ci interface{}, st *Stats) (err error) {
 				parts[i] = gotShape(k)
 			}
 			return "BLOCK[" + strings.Join(parts, " ") + "]"
-		case *ast.NonTerminalNode:
+		case parsley.NonTerminalNode: // the library's node or a user type embedding it
 			parts := make([]string, len(v.Children()))
 			for i, k := range v.Children() {
 				parts[i] = gotShape(k)
